@@ -86,7 +86,7 @@ def run(ctx):
         import concurrent.futures as cf
         with cf.ThreadPoolExecutor(4) as ex:
             futs = [ex.submit(ctx.tlc, "MCIgnoreSet", cfg(maxops, True, True, k, parts), 4, 3000,
-                              None, None, False, None, None, "c16_emit_p%d" % k, True, False, False)
+                              None, None, False, None, "-Xmx8g", "c16_emit_p%d" % k, True, False, False)
                     for k in range(parts)]
             runs = [f.result() for f in futs]
     for r in runs:
@@ -128,7 +128,7 @@ def run(ctx):
             raise vlib.ToolError("ignoreset-record failed: " + p.stderr)
         info = json.loads(p.stdout)
         r = ctx.tlc("MCIgnoreSetTrace", TRACE_CFG % tr, workers=1, label="c16_trace_%d" % k,
-                    allow_violation=True, timeout=3000, jvm="-XX:ParallelGCThreads=2")
+                    allow_violation=True, timeout=3000, jvm="-XX:ParallelGCThreads=2 -Xmx3g")
         return tr, info, r
 
     with cf.ThreadPoolExecutor(min(ntr, vlib.NCPU)) as ex:
